@@ -145,6 +145,10 @@ def run(ctx):
             ctx.inconc(f"baseline of {sc.name}@{sc.mode} gave {resp[:1]}")
             continue
         vis = base.visible
+        bp = ref.check_content_tree(cache)
+        if bp:
+            ctx.violation(f"{sc.name}|{sc.mode}|no-fault|content-tree", f"without any fault {sc.name} leaves: {bp[0]}",
+                          {"steps": [["sync@astd", q] for q in sc.prep] + [[sc.mode, sc.req]]})
         ctx.rm(bdir)
         jobs = []
         for e in vis:
